@@ -132,7 +132,18 @@ def _octagon(x, y, r, s):
             [x + r - s, y + r, "line"], [x + s, y + r, "line"], [x, y + r - s, "line"], [x, y + s, "line"]]
 
 
-def _layer(shape, adv, slot, shapes, bold):
+# outer transform of a nested composite: [xScale, xyScale, yxScale, yScale] (dyadic, exact in F2Dot14) + offset
+NEST_XF = {
+    "off": ([1, 0, 0, 1], (10, 10)),
+    "rot45": ([0.70703125, 0.70703125, -0.70703125, 0.70703125], (300, 0)),
+    "rot90": ([0, 1, -1, 0], (400, 0)),
+    "skew": ([1, 0, 0.5, 1], (0, 0)),
+    "flip": ([-1, 0, 0, 1], (500, 0)),
+    "scale": ([1.5, 0, 0, 0.75], (0, 20)),
+}
+
+
+def _layer(shape, adv, slot, shapes, bold, nx="off"):
     """The layer of slot `slot` (0-based) in one master. bold: widen outlines / move offsets."""
     w = 40 if bold else 0
     width = adv + (w if adv > 0 else 0)
@@ -162,7 +173,9 @@ def _layer(shape, adv, slot, shapes, bold):
         lay["components"] = [{"base": nearest(outline, 1), "xform": [1, 0, 0, 1, 0, 0]},
                              {"base": nearest(outline, 0), "xform": [1, 0, 0, 1, 200 + w, -30]}]
     elif shape == "CN":
-        lay["components"] = [{"base": nearest(lambda s: s in ("C", "CF", "CR", "C2")), "xform": [1, 0, 0, 1, 10 + w // 4, 10]}]
+        m, (dx, dy) = NEST_XF[nx]
+        lay["components"] = [{"base": nearest(lambda s: s in ("C", "CF", "CR", "C2")),
+                              "xform": list(m) + [dx + w // 4, dy]}]
     elif shape == "CE":
         lay["components"] = [{"base": nearest(lambda s: s == "E"), "xform": [1, 0, 0, 1, 15, 0]}]
     return lay
@@ -189,7 +202,8 @@ def case_to_minifont(case):
     for i in range(n):
         base = CP_BASE[cps[i]]
         g = {"name": NAMES[i], "unicodes": [] if base is None else [base + i],
-             "layers": {m: _layer(shapes[i], ADV[advs[i]], i, shapes, bold=(mi == 1)) for mi, m in enumerate(masters)}}
+             "layers": {m: _layer(shapes[i], ADV[advs[i]], i, shapes, bold=(mi == 1), nx=case.get("nx", "off"))
+                        for mi, m in enumerate(masters)}}
         glyphs.append(g)
     mf["glyphs"] = glyphs
     mf["glyph_order"] = [g["name"] for g in glyphs]
@@ -220,6 +234,14 @@ def case_to_minifont(case):
         expect += ["vhea", "vmtx"]
     if variable:
         expect += ["fvar", "gvar", "HVAR", "STAT"]
+        ax = case.get("ax", "plain")
+        if "mapped" in ax:                  # non-identity user -> design map: avar must be there
+            mf["axes"][0]["map"] = [[400, 400], [500, 550], [700, 700]]
+            expect.append("avar")
+        if "point" in ax:                   # min = default = max: no fvar record, but a dimension of every location
+            mf["axes"].append({"tag": "ital", "name": "Italic", "min": 0, "default": 0, "max": 0})
+            for m in mf["masters"]:
+                m["loc"]["Italic"] = 0
     else:
         forbid += VARIABLE_ONLY
     meta = {"src_adv": [500] + [ADV[a] for a in advs], "explicit_ranges": False, "expect": expect, "forbid": forbid,
